@@ -669,7 +669,13 @@ def async_monitor(prop, traces):
     import concurrent.futures as cf
     fails, cover, st_states, st_trans = [], {}, 0, 0
     def one(t):
-        return vlib.validate_trace(t, "Trace_Async.tla", "Trace_Async.cfg", tag=prop + "a")
+        # the monitor measures conformance to AsyncCore: a trace it cannot finish in time (the
+        # set of consistent model states can grow large on wide fan-outs) is counted, not fatal
+        try:
+            return vlib.validate_trace(t, "Trace_Async.tla", "Trace_Async.cfg", tag=prop + "a", timeout=900)
+        except vlib.ToolError as e:
+            vlib.log(f"[{prop}] pending-set monitor did not finish {os.path.basename(t)}: {str(e)[:120]}")
+            return [], [(0, 0, ["monitor_incomplete"])], [], {"distinct": 0, "states": 0}
     with cf.ThreadPoolExecutor(max_workers=12) as ex:
         for f, covers, begins, st in ex.map(one, traces):
             fails += f
@@ -722,6 +728,7 @@ def _c10(prop, tier, seed, t0):
     c["states"] += xres.states + astates + mc_info.get("asyncfetch_states", 0)
     c["transitions"] += xres.transitions + atrans + mc_info.get("asyncfetch_transitions", 0)
     c.update(deep_info)
+    c["pending_set_monitor_traces_not_finished"] = acover.get("monitor_incomplete", 0)
     c["pending_set_monitor"] = {"encodes_followed": acover.get("encode_followed", 0),
                                 "quiescent_points_compared": acover.get("pending", 0),
                                 "with_two_or_more_pending": acover.get("pending2", 0),
